@@ -7,9 +7,11 @@
 -/
 import GeoModel.Segment
 import GeoModel.Ops.C03
+import GeoProofs.Lemmas.SegmentSpec
+import GeoProofs.Lemmas.RingSpec
 
 namespace Geo.Proofs.C03
-open Geo
+open Geo Geo.Proofs.Kernel
 
 /-- [T] the determinant is invariant under translation. -/
 theorem cross_translate (p q r t : Pt) : cross (p + t) (q + t) (r + t) = cross p q r := by
@@ -75,5 +77,81 @@ theorem cross_i64_overflow_witness :
     Ops.C03.signOri (Ops.C03.crossI64 0 0 4294967296 0 0 4294967296) ≠
     Ops.C03.signOri (Ops.C03.crossInt 0 0 4294967296 0 0 4294967296) := by
   decide
+
+
+/-! ### orientation-level corollaries of the determinant laws -/
+
+/-- [T] the orientation is invariant under translation. -/
+theorem orient_translate (p q r t : Pt) : orient (p + t) (q + t) (r + t) = orient p q r := by
+  rw [orient_oriOf, orient_oriOf, cross_translate]
+
+/-- [T] swapping the last two arguments reverses the orientation. -/
+theorem orient_swap (p q r : Pt) : orient p r q = oriRev (orient p q r) := by
+  rw [orient_oriOf, orient_oriOf, cross_swap]
+  rcases lt_trichotomy (cross p q r) 0 with h | h | h
+  · rw [oriOf_neg h, oriOf_pos (by linarith)]; rfl
+  · rw [h, neg_zero, oriOf_zero]; rfl
+  · rw [oriOf_pos h, oriOf_neg (by linarith)]; rfl
+
+/-- [T] cyclic rotation of the arguments keeps the orientation. -/
+theorem orient_cyclic (p q r : Pt) : orient q r p = orient p q r := by
+  rw [orient_oriOf, orient_oriOf, cross_cyclic]
+
+/-- [T] uniform scaling by a non-zero factor keeps the orientation (in particular for `k > 0`;
+`k < 0` is a point reflection, which also preserves orientation in the plane). -/
+theorem orient_scale_pos (k : Rat) (hk : k ≠ 0) (p q r : Pt) :
+    orient (Pt.smul k p) (Pt.smul k q) (Pt.smul k r) = orient p q r := by
+  rw [orient_oriOf, orient_oriOf, cross_scale]
+  have hkk : 0 < k * k := mul_self_pos.mpr hk
+  rcases lt_trichotomy (cross p q r) 0 with h | h | h
+  · rw [oriOf_neg h, oriOf_neg (mul_neg_of_pos_of_neg hkk h)]
+  · rw [h, mul_zero]
+  · rw [oriOf_pos h, oriOf_pos (mul_pos hkk h)]
+
+example : orient (Pt.smul 3 ⟨0, 0⟩) (Pt.smul 3 ⟨1, 0⟩) (Pt.smul 3 ⟨0, 1⟩) = orient ⟨0, 0⟩ ⟨1, 0⟩ ⟨0, 1⟩ :=
+  orient_scale_pos 3 (by norm_num) _ _ _
+
+/-! ### point-on-segment and the boundary test of `coord_pos_relative_to_ring` -/
+
+/-- [T] `Line: Intersects<Coord>` is membership in the closed segment
+(`SegMem p a b := ∃ t ∈ [0,1], p = a + t (b - a)`). -/
+theorem lineCoord_iff_segMem (a b p : Pt) : lineCoord a b p = true ↔ SegMem p a b :=
+  lineCoord_iff a b p
+
+/-- [T] one edge visit of the winding loop reports "on boundary" only for points of that edge. -/
+theorem ringEdge_none_sub (p s e : Pt) (h : ringEdge p s e = none) : lineCoord s e p = true :=
+  lineCoord_of_ringEdge_none h
+
+/-- [T] for any coordinate list with at least two coordinates, `OnBoundary` implies that the point
+lies on one of the edges. -/
+theorem ringPos_boundary_sub (p : Pt) (ring : List Pt) (h2 : 2 ≤ ring.length)
+    (h : ringPos p ring = .onBoundary) : ∃ edge ∈ segs ring, lineCoord edge.1 edge.2 p = true :=
+  Kernel.ringPos_boundary_sub p ring h2 h
+
+/-- [T] For a *closed* ring with at least two coordinates the boundary test is exactly "the point
+lies on some edge": the loop visits an edge only when `p.y` is in its (half-open) y-range and then
+tests `value_in_between` on x, which together with collinearity is `lineCoord`; the one point an
+edge visit skips (the start vertex of a downward edge) is the end vertex of the preceding edge.
+Full statement (only `2 ≤ ring.length`): false for an open coordinate list, see
+`ringPos_open_ring_witness`; closedness is the function's own precondition
+(`debug_assert!(linestring.is_closed())`). -/
+theorem ringPos_boundary_iff_partial (p : Pt) (ring : List Pt) (h2 : 2 ≤ ring.length)
+    (hclosed : ring.head? = ring.getLast?) :
+    ringPos p ring = .onBoundary ↔ ∃ edge ∈ segs ring, lineCoord edge.1 edge.2 p = true :=
+  ringPos_boundary_iff_closed p ring h2 hclosed
+
+example : ringPos ⟨2, 1⟩ [⟨0, 0⟩, ⟨2, 0⟩, ⟨2, 2⟩, ⟨0, 0⟩] = .onBoundary := by
+  rw [ringPos_boundary_iff_partial _ _ (by simp) (by simp)]
+  refine ⟨(⟨2, 0⟩, ⟨2, 2⟩), by simp [segs], ?_⟩
+  rw [lineCoord_iff]
+  exact ⟨1/2, by norm_num, by norm_num, by norm_num, by norm_num⟩
+
+/-- [T] witness that closedness is needed: on the open list `[(0,1), (0,0)]` the start vertex
+`(0,1)` of the single (downward) edge is on that edge but reported `Outside`. -/
+theorem ringPos_open_ring_witness :
+    ringPos ⟨0, 1⟩ [⟨0, 1⟩, ⟨0, 0⟩] = .outside ∧ lineCoord ⟨0, 1⟩ ⟨0, 0⟩ ⟨0, 1⟩ = true := by
+  constructor
+  · norm_num [ringPos, segs, ringWinding, ringEdge]
+  · rw [lineCoord_iff]; exact SegMem_left _ _
 
 end Geo.Proofs.C03
